@@ -85,6 +85,11 @@ def _ok(case):
 
 
 def run(prop, tier, seed, replay=None):
+    rp = json.load(open(replay)).get("replay", {}) if replay else {}
+    if rp.get("family") in ("async-single", "async-chain", "threaded") or (isinstance(rp.get("case"), dict) and "nodes" not in rp["case"]):
+        # a replay recorded by the asynchronous part of this property's check
+        import check_async
+        return check_async.run(prop, tier, seed, replay)
     out = common.Outcome(prop, tier, seed)
     proof = common.props_check(prop)
     if prop == "C05":
